@@ -167,7 +167,8 @@ def port_polarity(rep, idx, P):
     rep.count("target_ports", n)
 
 
-def drivers(rep, idx, P):
+def drivers(rep, idx, P, rule="C20.2", exempt=None):
+    exempt = EXEMPT_PORTS if exempt is None else exempt
     nd = 0
     for f in idx.all_functions():
         if f.name != "elaborate" or f.cls is None:
@@ -190,7 +191,7 @@ def drivers(rep, idx, P):
                 pbase = pbase[1]
             if not (pbase[0] == 'attr' and pbase[1] == ('name', 'self') and pbase[2] in mem):
                 continue
-            if pbase[2] in EXEMPT_PORTS:
+            if pbase[2] in exempt:
                 continue
             r = P.of(pbase, cls)
             if r is None:
@@ -202,7 +203,7 @@ def drivers(rep, idx, P):
             flow = +1 if sm[0][0] == 'Out' else -1
             nd += 1
             what = f"{cls.qual}.elaborate drives {ir.show(pbase)}.{member}"
-            rep.check(pol * flow == +1, "C20.2", f.site, what,
+            rep.check(pol * flow == +1, rule, f.site, what,
                       f"port polarity {sign(pol)}{sigcls.qual}, member declared {sm[0][0]}: under that orientation `{member}` is an input of "
                       "this component, yet the component drives it")
     rep.count("port_member_drivers", nd)
@@ -598,7 +599,13 @@ def parameters(rep, idx, P, sig, icls):
     if passed.get("signature") == ('name', 'self') or (call.args and isinstance(call.args[0], ast.Name) and call.args[0].id == "self"):
         rep.ok("C20.4", cr.site, f"{sig.qual}.create() hands the signature itself to the interface", "all parameters preserved")
     else:
-        missing = [p for p in params if passed.get(p) != ir.parse(f"self.{p}")]
+        # a parameter may be read through its property or straight from where the property reads it
+        from .common import property_aliases
+        al_ = property_aliases(idx, sig)
+
+        def through(e_):
+            return ir.norm(ir.subst(e_, lambda x: al_.get(x))) if e_ is not None else None
+        missing = [p for p in params if passed.get(p) != ir.parse(f"self.{p}") and through(passed.get(p)) != through(ir.parse(f"self.{p}"))]
         rep.check(not missing, "C20.4", cr.site, f"{sig.qual}.create() passes every defining parameter to the interface",
                   f"not passed (or not from self): {missing}: the created interface's signature would differ from the original")
     # (d) the interface constructor forwards them back into this signature class
